@@ -34,7 +34,7 @@ def norm_term(t):
     if t[0] == "cast" and t[1] == "u32":
         return t[2]           # narrowing casts erased (C13 lists them; C12 makes the reader value-agnostic)
     if t[0] == "mcall" and t[1].endswith("HashSet::insert"):
-        return ("fresh", t[2][0], t[2][1])
+        return ("fresh", t[2][0], key_tuple(t[2][1]))
     if t[0] == "call" and t[1].endswith(("Entry::or_default", "Entry::or_insert_with", "Entry::or_insert")) \
             and t[2][0][0] == "mcall" and t[2][0][1].endswith("::entry"):
         e = t[2][0]
@@ -44,6 +44,30 @@ def norm_term(t):
     if t[0] == "bool" and t[1][0] == "fresh":
         return t[1]
     return None
+
+
+_DERIVED_KEYS = {"fx": None}
+
+
+def key_tuple(k):
+    """a set key that is a private struct with derived PartialEq + Eq + Hash is the tuple of its fields in the order
+    (obfuscated, arguments, original) expects: equality and hashing of a derived struct are field-wise"""
+    fx = _DERIVED_KEYS["fx"]
+    if k[0] == "adt" and fx is not None and len(k[3]) == 3:
+        derived = {i_.get("trait") for i_ in fx.items["proguard"]["impls"]
+                   if i_.get("exp") and i_.get("self", "").split("<")[0].split("::")[-1] == k[1]}
+        if {"std::cmp::PartialEq", "std::cmp::Eq", "std::hash::Hash"} <= derived:
+            vals = [v for _, v in k[3]]
+            order = {"obfuscated": 0, "arguments": 1, "original": 2}
+
+            def rank(v):
+                # the record component the value stands for (payload field name), declaration order otherwise
+                t = v
+                while t[0] in ("payload", "field") and t[-1] not in order:
+                    t = t[1]
+                return order.get(t[-1], 9) if t[0] in ("payload", "field") else 9
+            return ("tuple", tuple(sorted(vals, key=rank)))
+    return k
 
 
 def norm_effect(e):
@@ -56,7 +80,7 @@ def norm_effect(e):
         if name.endswith("Vec::push"):
             return ("push", args[0], args[1])
         if name.endswith("HashSet::insert"):
-            return ("set_insert", args[0], args[1])
+            return ("set_insert", args[0], key_tuple(args[1]))
         if name.endswith(("BTreeMap::insert", "HashMap::insert")):
             return ("map_insert", args[0], args[1], args[2])
         if name.endswith(("HashSet::clear", "HashMap::clear", "BTreeMap::clear", "Vec::clear")):
@@ -89,6 +113,7 @@ class RecordLoop:
 
     def __init__(self, fx, path, opaque=lambda p: False):
         self.fx = fx
+        _DERIVED_KEYS["fx"] = fx
         self.path = path
         self.body = fx.bodies[path]
         self.sy = S.Sym(fx, opaque=opaque, inline_mut=True)
